@@ -110,7 +110,7 @@ def params(tier):
     K, D, L = cfg(tier)
     ps = [P(f"a{i}", 0, 6) for i in range(K)] + [P("cancel", 0, 4)]
     for j in range(D):
-        ps += [P(f"gap{j}", 0, L), P(f"arm{j}", 0, 3)]
+        ps += [P(f"gap{j}", 0, L), P(f"arm{j}", 0, 7)]
     return ps
 
 
